@@ -118,7 +118,23 @@ func genSessionLocks(sb *strings.Builder) error {
 			locked[recv+"."+fd.Name.Name] = lockedWhole(fd)
 		}
 	}
+	// one session object per sender: State.GetSession looks up, creates and registers under
+	// sessionsLock for its whole body
+	{
+		f, err := parser.ParseFile(fset, "/repo/state/state.go", nil, 0)
+		if err != nil {
+			return err
+		}
+		lockFieldName = "sessionsLock"
+		for _, d := range f.Decls {
+			if fd, ok := d.(*ast.FuncDecl); ok && fd.Recv != nil && fd.Name.Name == "GetSession" {
+				locked["State.GetSession"] = lockedWhole(fd)
+			}
+		}
+		lockFieldName = "lock"
+	}
 	sb.WriteString("(* one replay handler per session, serialised: lock held for the whole body (go/ast) *)\n")
+	fmt.Fprintf(sb, "Definition state_getsession_locked : bool := %v.\n", locked["State.GetSession"])
 	fmt.Fprintf(sb, "Definition session_signing_locked : bool := %v.\nDefinition session_encryption_locked : bool := %v.\n", locked["Session.Signing"], locked["Session.Encryption"])
 	fmt.Fprintf(sb, "Definition seq_check_locked : bool := %v.\nDefinition timeseq_check_locked : bool := %v.\n\n", locked["SequenceHandler.Check"], locked["TimeSequenceHandler.Check"])
 	return nil
